@@ -48,6 +48,9 @@ BAD = lambda k="arg": ["bad", k]                        # noqa: E731
 A1 = ["add", 0, [T("m", "my_func"), BAD("arg"), T("m", "myXfunc"), T("m", "MY_FUNC")]]
 A2 = ["add", 1, [T("m", "foo"), T("m", "Foo.bar"), T("M", "foo"), T("m", "my_func")]]
 A3 = ["add", 2, [T("m", "a%b", 1), BAD("func"), T("m", "aXXb", 1), T("", "foo", 2)]]
+# rows of one function that differ in exactly one column each (arg_types / return_type / yield_type, NULL vs text)
+A4 = ["add", 1, [T("m", "foo", 0), T("m", "foo", 8), T("m", "foo", 9), T("m", "foo", 6), T("m", "foo", 7),
+                 T("m", "foo", 10), T("m", "foo", 8)]]
 X1 = ["add_fault", 1, [T("m", "my_func", 1), T("m", "foo", 1)], ["interrupt", 9]]
 X2 = ["add_fault", 2, [T("M", "Foo.bar", 1), T("m", "a%b")], ["locked"]]
 X3 = ["add_fault", 0, [T("m", "aXXb"), T("M", "my_func")], ["evil", 1]]
@@ -58,8 +61,8 @@ F3 = ["filter", 2, "m", "a%b", 2000]
 F4 = ["filter", 0, "m", None, 2]
 F5 = ["filter", 1, "M", "FOO", 2000]
 L1 = ["modules", 1]
-LITERAL_ALPHABET = [A1, A2, A3, X1, R0, F1, F2, F3, F4, F5, L1]
-MUTATORS = [A1, A2, A3, X1, X2, X3, R0]
+LITERAL_ALPHABET = [A1, A2, A3, A4, X1, R0, F1, F2, F3, F4, F5, L1]
+MUTATORS = [A1, A2, A3, A4, X1, X2, X3, R0]
 
 
 def query_sweep():
@@ -88,7 +91,8 @@ def random_history(rnd, maxlen=40):
                 if rnd.random() < 0.15:
                     specs.append(BAD(rnd.choice(["arg", "ret", "func"])))
                 else:
-                    specs.append(T(rnd.choice(["m", "m", "M", ""]), rnd.choice(sm.QUALNAMES), rnd.choice([0, 0, 1, 2, 3])))
+                    specs.append(T(rnd.choice(["m", "m", "M", ""]), rnd.choice(sm.QUALNAMES),
+                                   rnd.choice([0, 0, 0, 1, 2, 3, 6, 7, 8, 9, 10])))
             ops.append(["add", rnd.randrange(3), specs])
         elif x < 0.45:
             specs = [T(rnd.choice(["m", "M"]), rnd.choice(sm.QUALNAMES), rnd.choice([0, 1])) for _ in range(rnd.randint(1, 4))]
@@ -179,6 +183,32 @@ def campaign_interrupt(work, tier):
         ops += [A2, ["table"], ["filter", 0, "m", "my_func", 2000], ["modules", 2]]
         hs.append((ops, total))
     return hs
+
+
+def big_batch_specs(n=1300):
+    """one large batch (well above any plausible chunk size): 14 distinct rows repeated, a few unserialisable traces"""
+    specs = []
+    for i in range(n):
+        specs.append(T(["m", "M"][i % 2], sm.QUALNAMES[i % 7], 0, "G%d" % (i % 14)))
+        if i in (3, 700, 1200):
+            specs.append(BAD("arg"))
+    return specs
+
+
+def campaign_big_batch(work, tier):
+    """interrupt the insert of one 1300-row batch at points spread over the whole insert (a store that commits a
+    batch piecewise leaves a torn batch behind)"""
+    specs = big_batch_specs()
+    probe = sm.run_history(os.path.join(work, "probe-big.db"), [["add_fault", 1, specs, ["interrupt", 10 ** 9]]], 2)
+    total = probe[0][1]["vm_steps"]
+    fracs = [0.02, 0.3, 0.45, 0.62, 0.8, 0.97] if tier == "quick" else [i / 40.0 for i in range(1, 40)] + [0.995]
+    ops = [A1, ["table"]]
+    for fr in fracs:
+        ops.append(["add_fault", 1 + len(ops) % 2, specs, ["interrupt", max(1, int(total * fr))]])
+    ops += [["filter", 0, "m", "my_func", 2000],
+            ["add_fault", 0, specs, ["interrupt", total + 50]],       # does not fire: the whole batch lands
+            ["filter", 2, "M", "foo", 2000], ["modules", 1]]
+    return ops, total
 
 
 def campaign_mid_reads(work, tier, it, dist):
@@ -330,6 +360,8 @@ def campaign_kill(work, tier, rnd, it, dist):
             jobs.append(("selfkill", k, 0, False, 8, 0.0))
         jobs.append(("selfkill", 300, 1, True, 60, 0.0))
         jobs.append(("selfkill", 10 ** 8, 0, False, 8, 0.0))         # never fires: the control
+        jobs.append(("selfkill", 7500, 0, False, 1300, 0.0))         # large batch, killed about 40% / 85% into the insert
+        jobs.append(("selfkill", 15500, 0, False, 1300, 0.0))
         for _ in range(6):
             jobs.append(("victim", 0, 1, True, 120, rnd.uniform(0.0, 0.03)))
     else:
@@ -338,6 +370,8 @@ def campaign_kill(work, tier, rnd, it, dist):
         for k in range(1, 1200, 7):
             jobs.append(("selfkill", k, 1, True, 60, 0.0))
         jobs.append(("selfkill", 10 ** 8, 0, False, 8, 0.0))
+        for k in range(500, 18000, 900):
+            jobs.append(("selfkill", k, 0, False, 1300, 0.0))
         for i in range(80):
             jobs.append(("victim", 0, 1 if i % 2 else 0, True, 120, rnd.uniform(0.0, 0.03)))
     cases = []
@@ -461,6 +495,9 @@ def summarise_ops(ops):
     for op in ops:
         if op[0] in ("add", "add_fault"):
             rows = [f"{r[0]}:{r[1]}" if r else "<unserialisable>" for r in sm.batch_rows(op[2])]
+            if len(rows) > 12:
+                rows = f"<batch of {len(rows)} traces, {len([r for r in rows if r != '<unserialisable>'])} serialisable: " \
+                       f"{rows[:3]} ...>"
             out.append(("add" if op[0] == "add" else f"add[{op[3][0]}]") + f"(conn{op[1]}, {rows})")
         elif op[0] == "filter":
             out.append(f"filter(conn{op[1]}, {op[2]!r}, {op[3]!r}, {op[4]})")
@@ -490,7 +527,7 @@ def minimise(work, ops):
         i -= 1
     # shrink the batches too
     for bi, op in enumerate(cur[:-1]):
-        if op[0] == "add":
+        if op[0] == "add" and len(op[2]) <= 12:
             j = len(op[2]) - 1
             while j >= 0:
                 cand_op = [op[0], op[1], op[2][:j] + op[2][j + 1:]]
@@ -509,21 +546,37 @@ class cases_built:
     built even when Props/C09.vo does not check (a changed query operator breaks the proof, and that is exactly when
     a failing input must be searched for)."""
 
+    def __init__(self, work=None):
+        self.work = work
+        self.fallback = None      # reason, when the shards are evaluated against the reference constants
+        self.saved_coq = None
+
     def __enter__(self):
         import fcntl
         self.lock = open(os.path.join(common.VERIF, ".build.lock"), "w")
         fcntl.flock(self.lock, fcntl.LOCK_EX)
         try:
             ok, msg = common.regenerate_all()
+            why = None
             if not ok:
-                raise RuntimeError("source extractor failed: " + msg)
-            if common.write_coqproject() or not os.path.exists(os.path.join(common.COQ, "Makefile")):
-                subprocess.run(["coq_makefile", "-f", "_CoqProject", "-o", "Makefile"], cwd=common.COQ,
-                               capture_output=True, text=True)
-            p = subprocess.run(["timeout", "900", "make", "-j", "8", "Check/StoreCases.vo"], cwd=common.COQ,
-                               capture_output=True, text=True)
-            if p.returncode != 0:
-                raise RuntimeError("Check/StoreCases.vo does not build: " + (p.stdout + p.stderr)[-1500:])
+                why = "source extractor failed closed: " + msg
+            else:
+                if common.write_coqproject() or not os.path.exists(os.path.join(common.COQ, "Makefile")):
+                    subprocess.run(["coq_makefile", "-f", "_CoqProject", "-o", "Makefile"], cwd=common.COQ,
+                                   capture_output=True, text=True)
+                p = subprocess.run(["timeout", "900", "make", "-j", "8", "Check/StoreCases.vo"], cwd=common.COQ,
+                                   capture_output=True, text=True)
+                if p.returncode != 0:
+                    why = "Check/StoreCases.vo does not build: " + (p.stdout + p.stderr)[-600:]
+            if why is not None:
+                # The model no longer knows the code's shape.  The property predicate (verdict 2) does not depend on
+                # it, so evaluate the cases against a private build with the reference constants: the search for a
+                # concrete failing history must still run.
+                if self.work is None:
+                    raise RuntimeError(why)
+                self.fallback = why
+                self.saved_coq = common.COQ
+                common.COQ = sm.build_reference_coq(self.work)
         except BaseException:
             self.__exit__(None, None, None)
             raise
@@ -531,6 +584,9 @@ class cases_built:
 
     def __exit__(self, *exc):
         import fcntl
+        if self.saved_coq is not None:
+            common.COQ = self.saved_coq
+            self.saved_coq = None
         fcntl.flock(self.lock, fcntl.LOCK_UN)
         self.lock.close()
         return False
@@ -576,6 +632,11 @@ def run(ctx):
         dist["interrupt_points"] += total + 2
         histories.append(("interrupt-every-step", ops))
 
+    # 5b. one large batch interrupted at points spread over the whole insert
+    ops, total = campaign_big_batch(ctx.work, ctx.tier)
+    dist["big_batch_vm_steps"] = total
+    histories.append(("big-batch-interrupt", ops))
+
     t_exec = time.time()
     results = exec_histories(ctx.work, [h for _, h in histories])
     for (kind, ops), steps in zip(histories, results):
@@ -607,7 +668,8 @@ def run(ctx):
     t_camp = time.time() - t_camp
 
     t_coq = time.time()
-    with cases_built():
+    with cases_built(ctx.work) as cb:
+        fallback = cb.fallback
         header = it.compile_defs(ctx.work)
         t_defs = time.time() - t_coq
         outs = common.run_coq_shards(ctx.work, "c09", header, [c["term"] for c in cases], "scase",
@@ -647,6 +709,12 @@ def run(ctx):
             failures.append(rec)
         else:
             mismatches.append(rec)
+    if fallback:
+        dist["evaluated_against_reference_constants"] = 1
+        if hasattr(ctx, "notes"):
+            ctx.notes.append("C09 cases judged against reference constants: " + fallback[:300])
+        for r in mismatches:
+            r["what"] = "(reference constants) " + r["what"]
     n_fail, n_mis = len(failures), len(mismatches)
     distinct = len({common.digest(c["term"]) for c in cases if c["nontrivial"]})
     dist = dict(dist)
@@ -662,7 +730,7 @@ def run(ctx):
             [c for c in cases if c["kind"] == "concurrent"][:1]
     return {
         "evaluations": len(cases), "distinct_nontrivial": distinct,
-        "rule": f"all {n_exh} operation sequences of length <= {L} over an 11-operation alphabet (3 adds with colliding "
+        "rule": f"all {n_exh} operation sequences of length <= {L} over a 12-operation alphabet (4 adds with colliding "
                 "names, duplicates and unserialisable traces on 3 connections, an interrupted add, reopen, 5 filters, "
                 "list_modules); every sequence of <= 3 mutators (adds, interrupted / locked-out / BaseException adds, reopen) "
                 "followed by a sweep of 93 queries (3 modules x 18 prefixes incl. None, '', wildcard and case variants; "
@@ -697,7 +765,7 @@ def replay(ctx, payload):
     d = describe_history([], steps)
     it = sm.Interner()
     term = sm.hist_term(it, [], steps)
-    with cases_built():
+    with cases_built(ctx.work):
         outs = common.run_coq_shards(ctx.work, "replay", it.compile_defs(ctx.work, "replaydefs"), [term], "scase",
                                      "bad verdict_c09 0 cases ++ map (fun o => match o with Some i => (1000, i) | None => (1000, 1000) end) "
                                      "(map first_bad cases)")
